@@ -325,12 +325,8 @@ def thread_build(seed, i, tier):
         progs = [[{"h": rs.randrange(nobj), "name": "$construct_new", "args": [fname, fresh.int()]}] +
                  ([{"h": rs.randrange(nobj), "name": "$construct_new", "args": [fname, fresh.int()]}] if rs.random() < 0.4 else [])
                  for _ in range(nthreads)]
-    # re-binding the filename of an object that ANOTHER thread is using at the same time is a race on the object
-    # itself (the statement is about OTHER objects still bound to the old file): keep $rebind only on private objects
-    for t, ops in enumerate(progs):
-        for op in ops:
-            if op["name"] == "$rebind" and any(o["h"] == op["h"] for t2, ops2 in enumerate(progs) if t2 != t for o in ops2):
-                op["name"], op["args"] = "len", []
+    # ($rebind may hit an object another thread is using at the same time: operations waiting for that object's lock
+    #  must neither fail with a lock-protocol error nor leak the old file's lock - found and fixed, see C10-X3)
     r = rs.random()
     if r < 0.45:
         strat = {"kind": "random", "p": rs.choice([0.02, 0.1, 0.3])}
